@@ -441,7 +441,8 @@ impl<'a> Gen<'a> {
                 let fst = self.rng.pick(&ints).clone();
                 let mut op = *self.rng.pick(&[BinOp::Sum, BinOp::Sub, BinOp::Prod, BinOp::Sum, BinOp::Sub]);
                 let mut snd = self.rng.pick(&ints).clone();
-                if self.rng.pct(self.cfg.divrem_pct) && ctx.len() + 3 <= self.cfg.max_live {
+                let spill_bonus = if ctx.len() > 12 { 15 } else { 0 };
+                if self.rng.pct(self.cfg.divrem_pct + spill_bonus) && ctx.len() + 3 <= self.cfg.max_live {
                     op = if self.rng.pct(50) { BinOp::Div } else { BinOp::Rem };
                     if self.rng.pct(40) {
                         // an existing variable as divisor (the run is discarded if it is zero);
